@@ -385,3 +385,12 @@ Definition ostep (passes : bool) (o : pobj) (op : oop) : pobj :=
   end.
 
 Definition orun (passes : bool) (ops : list oop) (o : pobj) : pobj := fold_left (ostep passes) ops o.
+
+(* ------------------------------------------------------------ loky: the temp folder of a REUSED executor
+   The folder root an executor writes memmaps to is fixed by the TemporaryResourcesManager(temp_folder) it holds.
+   get_memmapping_executor builds a new manager for every call but (regenerated facts: Gen/T_pool_settings.v) compares
+   the executor arguments with or without temp_folder [key_has_tf] and installs the new manager on a reused executor or
+   not [new_mgr_on_reuse].  prev = folder of the live executor, given = the temp_folder resolved for this call. *)
+Definition loky_folder_used (key_has_tf new_mgr_on_reuse : bool) (prev given : Z) (other_args_equal : bool) : Z :=
+  let reused := other_args_equal && (negb key_has_tf || (prev =? given)) in
+  if reused && negb new_mgr_on_reuse then prev else given.
